@@ -269,6 +269,26 @@ Proof.
   destruct (W.ser_oblocks r) as [z| |] eqn:Ez; try discriminate. constructor; [eauto|eapply IH; reflexivity].
 Qed.
 
+(* the typed values behind what the writers area's model wrote are in the domain of the metadata area's round trip *)
+Theorem written_metadata_typed : forall (u : list N -> bool) s l meta, W.write_blocks s l = Ok meta -> md5_ok s ->
+  Forall plain l -> Forall points_ok l -> Forall contiguous_ok l ->
+  Forall (FlacMeta.Blocks_level.ty_block u) (M.BStreaminfo (convM s) :: map convB l) /\
+  Forall FlacMeta.Blocks_level.canon_block (M.BStreaminfo (convM s) :: map convB l).
+Proof.
+  intros u s l meta H Hmd Hpl Hpt Hct.
+  unfold W.write_blocks in H.
+  destruct (W.ser_streaminfo_body s) as [body| |] eqn:Eb; try discriminate. cbn [bind] in H.
+  destruct (streaminfo_agree s body Eb Hmd) as (_ & _ & _ & Ts & Cs).
+  destruct (W.ser_header _ 0 _) as [h| |]; try discriminate. cbn [bind] in H.
+  destruct (W.ser_oblocks l) as [rest| |] eqn:Er; try discriminate.
+  pose proof (oblocks_each l rest Er) as Hea.
+  assert (G : Forall (fun b => FlacMeta.Blocks_level.ty_block u (convB b) /\ FlacMeta.Blocks_level.canon_block (convB b)) l).
+  { apply Forall_forall. intros b Hb. rewrite Forall_forall in Hea, Hpl, Hpt, Hct. destruct (Hea b Hb) as (last & x & Ex).
+    eapply ty_block_conv; eauto. }
+  split; (constructor; [assumption|]); apply Forall_forall; intros b Hb; apply in_map_iff in Hb; destruct Hb as (b0 & <- & Hb0);
+    rewrite Forall_forall in G; apply (G b0 Hb0).
+Qed.
+
 (* the metadata area's full reader on what the writers area's model wrote *)
 Theorem written_metadata_read_in_full : forall (u : list N -> bool), FlacMeta.Props_C11.utf8_ok u ->
   forall s l meta tail, W.write_blocks s l = Ok meta -> md5_ok s ->
@@ -328,4 +348,23 @@ Proof.
   apply bind_ok in Hnew. destruct Hnew as (t & _ & Hnew). apply bind_ok in Hnew. destruct Hnew as (e0 & He0 & Hnew). injection Hnew as <-.
   cbn [sw_enc]. unfold encoder_new in He0. apply bind_ok in He0. destruct He0 as ([] & _ & He0).
   apply bind_ok in He0. destruct He0 as (bl & _ & He0). apply bind_ok in He0. destruct He0 as (meta & _ & He0). injection He0 as <-. reflexivity.
+Qed.
+
+(* the finished file of a FlacSampleWriter model run: the metadata region the writers area's model serialises from the
+   final STREAMINFO and block list, then the frames *)
+Theorem sample_writer_file_layout : forall enc_block md5 p o rate bps ch total w chunks f,
+  (forall l, length (md5 l) = 16%nat) ->
+  sample_new p [] o rate bps ch total = Ok w ->
+  sample_run enc_block md5 p w chunks = Ok f ->
+  exists meta', W.write_blocks (f_si f) (f_blocks f) = Ok meta' /\ f_stream f = meta' ++ frames_bytes (f_enc f).
+Proof.
+  intros enc_block md5 p o rate bps ch total w chunks f Hmd5 Hnew Hrun.
+  pose proof (C09_layout_sample enc_block md5 p [] o rate bps ch total w chunks f Hmd5 Hnew Hrun) as (meta' & Hw & _ & _ & _ & Hs).
+  exists meta'. split; [exact Hw|]. rewrite Hs.
+  assert (Ep : e_prefix (sw_enc w) = []).
+  { unfold sample_new in Hnew. apply bind_ok in Hnew. destruct Hnew as (b' & _ & Hnew).
+    apply bind_ok in Hnew. destruct Hnew as (t & _ & Hnew). apply bind_ok in Hnew. destruct Hnew as (e0 & He0 & Hnew). injection Hnew as <-.
+    cbn [sw_enc]. unfold encoder_new in He0. apply bind_ok in He0. destruct He0 as ([] & _ & He0).
+    apply bind_ok in He0. destruct He0 as (bl & _ & He0). apply bind_ok in He0. destruct He0 as (meta & _ & He0). injection He0 as <-. reflexivity. }
+  rewrite Ep. reflexivity.
 Qed.
